@@ -87,7 +87,7 @@ void ProxySocket::onUpstreamConnected()
     if (origFwd.isNull()) {
         headers.insert("X-Forwarded-For", peerIP);
     } else {
-        headers.insert("X-Forwarded-For", origFwd + ", " + peerIP);
+        headers.replace("X-Forwarded-For", origFwd + ", " + peerIP);
     }
     if (!headers.contains("X-Real-IP")) {
         headers.insert("X-Real-IP", peerIP);
